@@ -7,7 +7,7 @@ PATHS = ((0, "single"), (1, "multi_section"), (2, "figure"))
 
 def build(tier, seed):
     quick = tier == "quick"
-    T = 120 if quick else 900
+    T = 240 if quick else 900
     obs = []
     # O0: census of process-global mutable state touched by an encode, and its cross-thread visibility (concrete probe)
     obs.append(Ob(oid="O0.shared_state_census", kind="py", target="vf.api_c15:census", kwargs={"tier": tier}, timeout=T,
